@@ -57,10 +57,12 @@ ClipDef(w, k, a) == LET v == SInt(a, w) IN IF v <= 0 THEN 0 ELSE IF v >= P2(k) T
 \* floored division (NumPy // and %): q = floor(a/d), r = a - q*d has the divisor's sign; d # 0.
 \* Results are w-bit patterns, i.e. taken modulo 2^w (signed min / -1 wraps to min like NumPy).
 FloorDiv(n, d) == IF d > 0 THEN n \div d ELSE (0 - n) \div (0 - d)
-DivDef(sg, w, a, d) ==
-    LET av == Val(sg, a, w)  dv == Val(sg, d, w)
+\* The divisor may have its own width wb: the quotient has the dividend's width w, the remainder the divisor's.
+DivDef2(sg, w, wb, a, d) ==
+    LET av == Val(sg, a, w)  dv == Val(sg, d, wb)
         q == FloorDiv(av, dv)
-    IN  << q % P2(w), (av - q * dv) % P2(w) >>
+    IN  << q % P2(w), (av - q * dv) % P2(wb) >>
+DivDef(sg, w, a, d) == DivDef2(sg, w, w, a, d)
 
 \* which (operation, width, parameter) combinations the documentation admits
 IsPow2(n) == \E e \in 0..8 : n = P2(e)
@@ -200,19 +202,22 @@ Restoring(i, dvd, minusd, m, rem, quo) ==
              sum == sh + minusd
              qb == sum \div m                                       \* carry-out of the adder
          IN Restoring(i - 1, dvd, minusd, m, IF qb = 1 THEN sum % m ELSE sh, 2 * quo + qb)
-DivAlg(sg, w, a, d) ==
-    LET m == P2(w)
-        na == sg = 1 /\ a >= m \div 2
+\* dividend / quotient: w bits (modulus mq); divisor / remainder register: wb bits (modulus m)
+DivAlg2(sg, w, wb, a, d) ==
+    LET m == P2(wb)
+        mq == P2(w)
+        na == sg = 1 /\ a >= mq \div 2
         nd == sg = 1 /\ d >= m \div 2
-        absa == IF na THEN NegM(a, m) ELSE a
+        absa == IF na THEN NegM(a, mq) ELSE a
         absd == IF nd THEN NegM(d, m) ELSE d
         qr == Restoring(w, absa, NegM(absd, m), m, 0, 0)
         q0 == qr[1]  r0 == qr[2]
         resneg == na # nd
-        q1 == IF resneg THEN (IF r0 = 0 THEN NegM(q0, m) ELSE m - 1 - q0) ELSE q0
+        q1 == IF resneg THEN (IF r0 = 0 THEN NegM(q0, mq) ELSE mq - 1 - q0) ELSE q0
         pr == IF r0 = 0 THEN r0 ELSE IF resneg THEN (absd + NegM(r0, m)) % m ELSE r0
         r1 == IF nd THEN NegM(pr, m) ELSE pr
     IN IF sg = 1 THEN << q1, r1 >> ELSE << q0, r0 >>
+DivAlg(sg, w, a, d) == DivAlg2(sg, w, w, a, d)
 
 -----------------------------------------------------------------------------
 (* NumPy broadcasting of the leading ("row") dimensions; shapes are sequences, flat indices 0-based. *)
